@@ -34,6 +34,7 @@ StateOf(e) ==
   [lim |-> e.lim, gpus |-> e.gpus, req |-> [p \in Pods |-> e.req[p]], nd |-> [p \in Pods |-> e.nd[p]],
    persist |-> FALSE, drain |-> e.st.drain = 1,
    up |-> e.st.up = 1, flips |-> e.st.flips, restarts |-> e.st.restarts, leaks |-> e.st.leaks,
+   refusals |-> e.st.refusals, panics |-> e.st.panics,
    alive |-> [p \in Pods |-> e.st.pods[p].alive = 1],
    bound |-> [p \in Pods |-> e.st.pods[p].bound = 1],
    br |-> [p \in Pods |-> [ex |-> e.st.pods[p].ex = 1, ph |-> e.st.pods[p].ph, fa |-> e.st.pods[p].fa, gen |-> e.st.pods[p].gen]],
@@ -59,7 +60,10 @@ Quiet(post) == [post |-> post, err |-> FALSE, rq |-> 0, bind |-> FALSE]
 \* is not enabled in the real state is skipped by the harness (rec.ran = 0) and must leave the state unchanged.
 EnabledIn(s, e) ==
   CASE e.ev = "SchedCycle" -> TRUE
-    [] e.ev = "BinderAttempt" -> s.q[e.p] /\ (e.out = "faillabel" => Reach(s, e.p) /\ IsFrac(s, e.p) /\ s.nd[e.p] = 2)
+    [] e.ev = "SchedCycleRefused" -> RefusedEnabled(s, e.p)
+    [] e.ev = "BinderAttempt" -> /\ s.q[e.p]
+                                 /\ e.out = "faillabel" => Reach(s, e.p) /\ IsFrac(s, e.p) /\ s.nd[e.p] = 2
+                                 /\ e.out = "panic" => Reach(s, e.p)
     [] e.ev = "BindDoneStatusLost" -> StatusLostEnabled(s, e.p)
     [] e.ev = "BinderCrashAfterLabel" -> CrashEnabled(s, e.p)
     [] e.ev = "BinderRestart" -> \E p \in Pods : s.br[p].ex /\ ~s.q[p]
@@ -71,10 +75,11 @@ EnabledIn(s, e) ==
     [] e.ev = "Quiesced" -> FALSE
     [] OTHER -> FALSE
 Predict(s, e) ==
-  IF e.ev \notin {"SchedCycle", "BinderAttempt", "BindDoneStatusLost", "BinderCrashAfterLabel", "BinderRestart", "NodeDeleted",
+  IF e.ev \notin {"SchedCycle", "SchedCycleRefused", "BinderAttempt", "BindDoneStatusLost", "BinderCrashAfterLabel", "BinderRestart", "NodeDeleted",
                   "NodeAdded", "PodDeleted", "GcBr", "StartDrain", "Quiesced"} THEN {}
   ELSE IF ~EnabledIn(s, e) THEN {Quiet(s)}
   ELSE CASE e.ev = "SchedCycle" -> {Quiet(t) : t \in CyclePosts(s)}
+    [] e.ev = "SchedCycleRefused" -> {Quiet(RefusedPost(s, e.p))}
     [] e.ev = "BinderAttempt" -> UNION {{[post |-> r.post, err |-> r.err, rq |-> r.rq, bind |-> r.bind] : r \in BinderRuns(s, e.p, e.out, rule)} : rule \in PatchRules}
     [] e.ev = "BindDoneStatusLost" -> {[post |-> StatusLostPost(s, e.p), err |-> FALSE, rq |-> 0, bind |-> TRUE]}
     [] e.ev = "BinderCrashAfterLabel" -> {Quiet(t) : t \in CrashPosts(s, e.p)}
